@@ -52,13 +52,13 @@ class C06(OptEngineBase):
     PROBES = [
         "fixed_isolated", "all_fixed", "none_fixed", "fixed_landmark", "unfix_between_calls",
         "first_vertex_not_min_id", "nan_outcome", "diverged_outcome", "singular_natural", "solver_raise_fired",
-        "i3_checked", "i3_skipped_illcond", "stdout_fail_fired", "multi_component", "singular_raised_as_error", "i3_trajectory_step", "aliased_pose_objects",
+        "i3_checked", "i3_skipped_illcond", "stdout_fail_fired", "multi_component", "singular_raised_as_error", "i3_trajectory_step", "aliased_pose_objects", "fixed_satellite_pose",
     ]
 
     # ------------------------------------------------------------------ generate
     def generate(self, rng, tier, index):
         config = draw_config(rng)
-        workload, meta = graphs.gen_opt_workload(rng, {"self_loops": False, "alias_poses": 0.12})
+        workload, meta = graphs.gen_opt_workload(rng, {"self_loops": False, "alias_poses": 0.12, "satellite_pose": 0.3, "rank_deficient_information": 0.04, "nonunit_quats": 0.05})
         verts = workload["vertices"]
         ids = [v["id"] for v in verts]
         comps = graphs.components(workload)
@@ -82,6 +82,9 @@ class C06(OptEngineBase):
                 fixed.add(rng.choice(c))
             if rng.random() < 0.3:
                 fixed.update(rng.sample(ids, rng.randint(0, len(ids) // 3)))
+        for v in verts:
+            if v.get("role") == "satellite" and rng.random() < 0.7:
+                fixed.add(v["id"])  # a satellite is only determined when it is held fixed
         for v in verts:
             v["fixed"] = v["id"] in fixed
         meta["fixed_class"] = cls
@@ -137,6 +140,8 @@ class C06(OptEngineBase):
                     res.probe("first_vertex_not_min_id")
                 if meta.get("aliased_pose"):
                     res.probe("aliased_pose_objects")
+                if any(sv.get("role") == "satellite" and sv.get("fixed") for sv in case["workload"]["vertices"]):
+                    res.probe("fixed_satellite_pose")
             optimized_before = False
             for i, op in enumerate(ops):
                 w.begin_op(i)
